@@ -67,6 +67,29 @@ for nm in ['user@host', 'a@b', '@x', 'x@', '@', 'a.b@c']:
             t3 = remove_value(source=parse(t2), npath=path); l3 = read_layers(t3)
             if l3 is None or any(quote(nm) in L for L in l3): viol.append({'what': 'scoped rm with a name that contains @ does not remove the binding', 'path': path, 'doc': doc_, 'text': t3})
         except Exception as ex: viol.append({'what': 'scoped edit with a name that contains @ raises %s' % type(ex).__name__, 'path': path, 'doc': doc_})
+# ---- eleventh round: a line feed in a scoped path.  Inside quotes it is part of the name (the same name as the \\n escape spells); outside quotes the
+# path is malformed and must be refused, never cut short at the line feed and applied to the binding the first line names
+for doc_ in ('{ x = 1; }\n', 'let\n  foo = { };\n  y = 2;\nin\n{ x = foo; }\n', 'let\n  a = 1;\nin\nlet\n  foo = 2;\nin\n{\n  c = a;\n}\n'):
+    for raw, esc in [('@"a\nb"', '@"a\\nb"'), ('@foo."k\n.v"', '@foo."k\\n.v"'), ('@@"a\nb"', '@@"a\\nb"'), ('@"\n"', '@"\\n"')]:
+        n_eval += 1; kinds['scoped-linefeed'] = kinds.get('scoped-linefeed', 0) + 1
+        def go(f, *a):
+            try: return ('ok', f(*a))
+            except (KeyError, ValueError) as ex: return ('refused', type(ex).__name__)
+            except Exception as ex: return ('raises', type(ex).__name__)
+        want = go(set_value, parse(doc_), esc, '2'); got = go(set_value, parse(doc_), raw, '2')
+        if want[0] == 'raises' or got != want and not (want[0] == got[0] == 'refused'):
+            viol.append({'what': 'a scoped path with a raw line feed inside quotes does not do what the \\n escape does', 'path': raw, 'doc': doc_, 'raw': got, 'escaped': want}); continue
+        if want[0] == 'ok':
+            r1 = go(remove_value, parse(want[1]), raw); r2 = go(remove_value, parse(want[1]), esc)
+            if r1 != r2 or r1[0] != 'ok': viol.append({'what': 'scoped rm with a raw line feed inside quotes does not find the binding the \\n escape finds', 'path': raw, 'doc': want[1], 'raw': r1, 'escaped': r2})
+    for badp in ('@foo\n.bar', '@foo\n"', '@foo\n', '@@foo\nbar', '@foo\n."q', '@y\n', '@a\nb'):
+        n_eval += 1; kinds['scoped-linefeed-malformed'] = kinds.get('scoped-linefeed-malformed', 0) + 1
+        for op in ('set', 'rm'):
+            try:
+                out = set_value(parse(doc_), badp, '3') if op == 'set' else remove_value(parse(doc_), badp)
+                viol.append({'what': '%s accepts a scoped path with a line feed outside quotes' % op, 'path': badp, 'doc': doc_, 'text': out})
+            except (KeyError, ValueError): pass
+            except Exception as ex: viol.append({'what': '%s of a malformed scoped path raises %s' % (op, type(ex).__name__), 'path': badp, 'doc': doc_})
 # ---- unconditional core (tenth round: a spelling met only by chance is a spelling missed when the generator changes): every special first name x
 # every plain or special second name, two and three segments: written as that path, found by a second set, removed by rm
 for first in ['x.y', 'b c', 'if', '9z', 'é', 'a"b', 'a\\b', '${x}', '', ' ', "q'", 'a.b.c', '.']:
